@@ -47,20 +47,32 @@ func init() {
 		return nil
 	}
 	checks["C10"] = func(run *report.Run) error {
-		run.Rule = "same generator as C06 with a higher panic rate (every filter before/after passing control on, handlers before/after partial output, plain handlers), recovery on/off, custom and default recover handler, encoding on/off, all entry points, histories mixing panicking and normal requests; recover() around the entry point; ledger provider (acquire/release balance, double release, object handed out twice); Spec.c10Holds is evaluated on every real observation"
+		run.Rule = "same generator as C06 with a higher panic rate (every filter before/after passing control on, handlers before/after partial output, plain handlers), recovery on/off, custom and default recover handler, encoding on/off, all entry points, histories mixing panicking and normal requests; recover() around the entry point; ledger provider (acquire/release balance, double release, object handed out twice); Spec.c10Holds is evaluated on every real observation; plus 6 fixed regression cases on the HandleWithFilter chain (the former witness of the repaired finding F18: no escape, recover handler once, its status, balanced ledger, c10Holds)"
 		serveMeta(run)
 		n := sizes(run, 700, 14000)
-		p := serve.PropSpec{ID: "C10", SpecKey: "C10", Proj: serve.ProjPanic, Known: func(sp map[string]string) string {
-			if sp["F18"] == "1" {
-				return "F18"
-			}
-			return ""
-		}}
+		// no known class: F18 (HandleWithFilter without recovery) was repaired by a0e838d, a
+		// falsifying case on that path is a violation like any other
+		p := serve.PropSpec{ID: "C10", SpecKey: "C10", Proj: serve.ProjPanic}
 		if err := serve.Check(run, p, serve.GenOpts{Router: "curly", PanicPct: 10}, n, 6, "curly"); err != nil {
 			return err
 		}
-		if serve.WitnessF18() {
-			run.KnownHits["F18"]++
+		// the former witness of F18 and its neighbours are regression cases that must hold
+		regs, err := serve.RegressionsF18()
+		if err != nil {
+			return err
+		}
+		for _, r := range regs {
+			run.Evaluations++
+			run.TracesValidated++
+			run.Distinct["regression|"+r.H.Line] = true
+			if r.Why == "" {
+				run.Count("regression:F18-fixed:holds")
+				continue
+			}
+			run.Count("regression:F18-fixed:FAILS")
+			run.AddViolation(report.Violation{Kind: "counterexample",
+				What: "regression of the repaired finding F18 (a0e838d, HandleWithFilter recovers like dispatch): " + r.Name + ": " + r.Why,
+				Case: []string{r.H.Line}, Human: serve.Human(r.H, 0), Real: r.H.Real[0].Canon(false), Model: r.H.Model[0].Canon(false)})
 		}
 		return nil
 	}
